@@ -424,9 +424,10 @@ def dec_client_packet(pkt: bytes, proto: int) -> dict:
         if not filters:
             raise Malformed("no filters")
         d.update(mid=mid, props=props, filters=filters)
-    elif ptype in (PINGREQ,):
+    elif ptype in (PINGREQ, PINGRESP):
+        # (PINGRESP: the client answers a PINGREQ if a peer sends one, as a bridge would)
         if flags != 0 or rl != 0:
-            raise Malformed("pingreq")
+            raise Malformed("ping")
     elif ptype == DISCONNECT:
         if flags != 0:
             raise Malformed("disconnect flags")
